@@ -161,4 +161,42 @@ def RateOfTurn.parse (d : Nat) : Val :=
   let raw : Int := if d < 128 then d else (d : Int) - 256
   if raw = -128 then .none else .int raw
 
+/-- `RateOfTurn::rate`: defined for |raw| ≤ 126; the value is `(raw / 4.733)²` in single precision,
+    which only the driver evaluates — the model says for which raw values there is one. -/
+def RateOfTurn.rateRaw (raw : Int) : Res (Option Int) :=
+  if -126 ≤ raw ∧ raw ≤ 126 then ok (some raw)
+  else if raw = -127 ∨ raw = 127 then ok none
+  else panic .unreachable
+
+/-- `RateOfTurn::direction` -/
+def RateOfTurn.direction (raw : Int) : Res (Option String) :=
+  if raw = 0 then ok none
+  else if 1 ≤ raw ∧ raw ≤ 127 then ok (some "Starboard")
+  else if -127 ≤ raw ∧ raw ≤ -1 then ok (some "Port")
+  else panic .unreachable
+
+/-- `AisMessageType::name` of each variant. -/
+def Kind.typeName : Kind → String
+  | .PositionReport => "Position Report Class A"
+  | .BaseStationReport => "Base Station Report"
+  | .StaticAndVoyageRelatedData => "Static and Voyage Related Data"
+  | .BinaryAddressedMessage => "Binary Addressed Message"
+  | .BinaryAcknowledgeMessage => "Binary Acknowledge"
+  | .BinaryBroadcastMessage => "Binary Broadcast Message"
+  | .StandardAircraftPositionReport => "Standard SAR Aircraft Position Report"
+  | .UtcDateInquiry => "UTC/Date Inquiry"
+  | .UtcDateResponse => "UTC/Date Response"
+  | .AddressedSafetyRelatedMessage => "Addressed Safety-Related Message"
+  | .SafetyRelatedAcknowledgment => "Safety-Related Acknowledge"
+  | .SafetyRelatedBroadcastMessage => "Safety-Related Broadcast Message"
+  | .Interrogation => "Interrogation"
+  | .AssignmentModeCommand => "Assignment Mode Command"
+  | .DgnssBroadcastBinaryMessage => "DGNSS Broadcast Binary Message"
+  | .StandardClassBPositionReport => "Standard Class B Position Report"
+  | .ExtendedClassBPositionReport => "Extended Class B Position Report"
+  | .DataLinkManagementMessage => "Data Link Management Message"
+  | .AidToNavigationReport => "Aid to Navigation Report"
+  | .StaticDataReport => "Static Data Report"
+  | .LongRangeAisBroadcastMessage => "Long Range AIS Broadcast message"
+
 end AisVerif
